@@ -60,7 +60,7 @@ def C10():
         "thorough": ("as quick with all triples for p <= 211 (run-time classes, Field_Zp) and for the compile-time primes <= 257, all "
                      "pairs for every prime <= 1009, full conversion interval for p <= 257, boundary primes 32749, 32771, 46337, "
                      "65519, 65521; multi-fields: all triples for P <= 110 (GMP classes) / P <= 210 (native small classes), all pairs "
-                     "for P <= 2310 (P <= 1155 for the two run-time GMP classes and the cohomology Multi_field)"),
+                     "for P <= 2310 (native small classes) / P <= 1155 (the three GMP classes and the cohomology Multi_field)"),
     },
     "assumptions": [
         "documented preconditions only: fused methods marked 'not overflow safe' are called only when the exact value fits the "
@@ -88,7 +88,7 @@ def C10():
             {"unit": "c10_zpct1", "args": ["--t3", "257"], "cores": 1, "timeout": 2400},
             {"unit": "c10_mf", "args": ["--m2", "1155"], "shards": 6, "cores": 1, "timeout": 2400},
             {"unit": "c10_mfs", "args": ["--m3", "210"], "shards": 3, "cores": 1, "timeout": 2400},
-            {"unit": "c10_mfct", "shards": 3, "cores": 1, "timeout": 2400},
+            {"unit": "c10_mfct", "args": ["--m2", "1155"], "shards": 3, "cores": 1, "timeout": 2400},
             {"unit": "c10_mfsct0", "args": ["--m3", "210"], "cores": 1, "timeout": 2400},
             {"unit": "c10_mfsct1", "args": ["--m3", "210"], "cores": 1, "timeout": 2400},
             {"unit": "c10_mfsct2", "cores": 1, "timeout": 2400},
